@@ -202,3 +202,61 @@ Proof.
   rewrite E. pose proof (excl_within t i (fwd_word_op (Nat.max count 1) big t i)) as W.
   destruct (excl t i (fwd_word_op (Nat.max count 1) big t i)); tauto.
 Qed.
+
+(** ** p / P *)
+Lemma repeat_text_length n (r : text) : length (repeat_text n r) = (n * length r)%nat.
+Proof. induction n as [|n IH]; cbn [repeat_text]; [reflexivity|]. rewrite app_length, IH. lia. Qed.
+
+(** a characterwise put inserts the copies of the register in one place and touches nothing else; the register stays *)
+Theorem put_char_locality after count s r :
+  o_reg s = Some (false, r) -> r <> [] ->
+  exists at_, (at_ <= length (o_text s))%nat /\
+    o_text (put after count s) = firstn at_ (o_text s) ++ repeat_text (Nat.max count 1) r ++ skipn at_ (o_text s) /\
+    o_reg (put after count s) = o_reg s.
+Proof.
+  intros Hr Hne. unfold put. rewrite Hr.
+  destruct (Nat.eqb_spec (length r) 0) as [E|_]; [destruct r; [congruence|discriminate]|].
+  set (i := Nat.min (o_cur s) (length (o_text s))).
+  pose proof (line_end_bounds (o_text s) i ltac:(unfold i; lia)) as B.
+  set (at_ := if after && negb (Nat.eqb i (line_end (o_text s) i)) then S i else i).
+  exists at_. cbn [o_text o_reg]. split; [|split; reflexivity].
+  unfold at_. destruct after; cbn [andb]; [|unfold i; lia].
+  destruct (Nat.eqb_spec i (line_end (o_text s) i)); cbn [negb]; lia.
+Qed.
+
+(** whole lines are put between lines: the text before and behind the place is untouched *)
+Theorem put_lines_locality after count s r :
+  o_reg s = Some (true, r) ->
+  let t := o_text s in
+  let i := Nat.min (o_cur s) (length t) in
+  let ins := repeat_text (Nat.max count 1) r in
+  let body := firstn (length ins - 1) ins in
+  o_text (put after count s)
+  = (if after then firstn (line_end t i) t ++ [nl] ++ body ++ skipn (line_end t i) t
+     else firstn (line_start_from t i) t ++ body ++ [nl] ++ skipn (line_start_from t i) t).
+Proof. intros Hr. cbv zeta. unfold put. rewrite Hr. destruct after; reflexivity. Qed.
+
+(** nothing in the register: nothing happens *)
+Theorem put_nothing after count s : o_reg s = None -> put after count s = s.
+Proof. intros H. unfold put. now rewrite H. Qed.
+
+(** what [d] took goes back where it was with [P], when the cursor is still where the text was taken *)
+Theorem delete_then_put_restores ins s lo0 hi0 :
+  let t := o_text s in
+  let s' := apply_op OpDelete ins s (RChar lo0 hi0) in
+  (clo t lo0 hi0 < chi t hi0)%nat -> o_cur s' = clo t lo0 hi0 ->
+  o_text (put false 1 s') = t.
+Proof.
+  cbv zeta. intros Hlt Hc. pose proof (clip_ok (o_text s) lo0 hi0) as C.
+  set (t := o_text s) in *. set (lo := clo t lo0 hi0) in *. set (hi := chi t hi0) in *.
+  assert (E1 : o_text (apply_op OpDelete ins s (RChar lo0 hi0)) = cut t lo hi) by reflexivity.
+  assert (E2 : o_reg (apply_op OpDelete ins s (RChar lo0 hi0)) = Some (false, slice t lo hi)) by reflexivity.
+  unfold put. rewrite E2, Hc, E1.
+  assert (Hl : length (slice t lo hi) = (hi - lo)%nat) by (apply slice_length; lia).
+  destruct (Nat.eqb_spec (length (slice t lo hi)) 0) as [Z|_]; [lia|].
+  cbn [andb o_text Nat.max repeat_text]. rewrite app_nil_r.
+  assert (Hlen : length (cut t lo hi) = (length t - (hi - lo))%nat).
+  { unfold cut. rewrite app_length, firstn_length, skipn_length. lia. }
+  rewrite (Nat.min_l lo) by lia.
+  now apply cut_restore.
+Qed.
